@@ -1,7 +1,7 @@
 (* C07/Properties.v — property theorems only.  Model: C07/Model.v (the code after fix commits
    e89b171, 07b228c; with the known finding F-C07a, whose fix 311264d was reverted by 0819a3f). *)
 From Coq Require Import String Lia.
-From RM Require Import C06.Model C06.Proofs C06.Proofs5 C06.Driver C07.Model C07.Proofs C07.Proofs2 C07.Proofs3 C07.Proofs4 C07.Text C07.Proofs5 C07.Walker C07.Proofs6 C07.Proofs7 C07.Proofs8 C07.Proofs9 C07.Proofs10.
+From RM Require Import C06.Model C06.Proofs C06.Proofs5 C06.Driver C07.Model C07.Proofs C07.Proofs2 C07.Proofs3 C07.Proofs4 C07.Text C07.Proofs5 C07.Walker C07.Proofs6 C07.Proofs7 C07.Proofs11 C07.Proofs8 C07.Proofs9 C07.Proofs10.
 From RM Require C09.Grammar.
 From RM Require C08.Model C08.Proofs.
 Open Scope Z_scope.
@@ -286,6 +286,21 @@ Theorem c07_text_route_agrees :
 Proof. exact text_route_agrees. Qed.
 Print Assumptions c07_text_route_agrees.
 
+(* The C04 question for STACK WIN FPO records, unbounded depth (induction on the list of activations): EVERY well-formed
+   all-FPO x86 stack — [fpo_layout]: each frame is [arguments for the callee][locals][saved registers][return address],
+   each return address >= 4096 is covered by its caller's FPO record, the stack stays below 2^32, the context frame has no
+   leftover return address on top — is walked to exactly the generated chain [fpo_chain], starting from the context frame
+   (below = []) or from any later frame, for functions with a FUNC record (parameter size Some k) or without one (None),
+   including direct recursion from one call site.  has_grand_callee / grand_callee_parameter_size come from the frame
+   list through the translated CfiStackWalker::from_ctx_and_args. *)
+Theorem c07_fpo_recovers_chain :
+  forall mem in_stack lookup ebp (acts : list act) below eip esp,
+    fpo_layout mem in_stack lookup (is_nil below) (spec_gcps below) eip esp acts ->
+    0 <= esp -> ebp < 2 ^ 32 ->
+    fpo_walk (length acts) mem in_stack lookup below (mkX eip esp ebp) = fpo_chain (spec_gcps below) esp ebp acts.
+Proof. exact fpo_recovers_chain. Qed.
+Print Assumptions c07_fpo_recovers_chain.
+
 (* ---- non-vacuity ---- *)
 Example c07_nonvacuous_doc_example :
   (* the worked example of the module docs: ebp = mem[16], esp = 24, eip = mem[20] *)
@@ -386,4 +401,20 @@ Proof.
     + repeat constructor; intro Hc; discriminate Hc.
     + cbn. repeat split; intro Hc; discriminate Hc.
   - constructor; [exact I|constructor].
+Qed.
+
+Example c07_nonvacuous_fpo_layout :
+  (* the stack of c07_nonvacuous_recursion_walk satisfies the precondition of c07_fpo_recovers_chain from the context frame *)
+  let mem := mem_read 4 2147483648
+     [1;1;1;1; 80;32;0;64;   17;17;17;17; 18;18;18;18; 80;32;0;64;   34;34;0;64; 35;35;35;35; 80;32;0;64;
+      51;51;51;51; 52;52;52;52; 0;48;0;64;   0;0;0;0; 0;0;0;0] in
+  let leaf := mkWin 4096 256 0 0 0 0 4 0 (AllocatesBasePointer false) in
+  let recurse := mkWin 8192 256 0 0 0 0 8 0 (AllocatesBasePointer false) in
+  let lookup := fun ip => if (1073745920 <=? ip) && (ip <? 1073746176) then Some (leaf, None)
+                          else if (1073750016 <=? ip) && (ip <? 1073750272) then Some (recurse, Some 0) else None in
+  fpo_layout mem (fun sp => (2147483648 <=? sp) && (sp <? 2147483700)) lookup true 0 1073745936 2147483648
+    [(leaf, None, 1073750096); (recurse, Some 0, 1073750096); (recurse, Some 0, 1073750096); (recurse, Some 0, 1073754112)].
+Proof.
+  cbn [fpo_layout]. repeat split; try reflexivity; try (intro Hc; discriminate Hc); try (vm_compute; intro Hc; discriminate Hc);
+    try (vm_compute; reflexivity); try (intros _ Hc; discriminate Hc).
 Qed.
